@@ -43,14 +43,19 @@ def check(ctx):
     with ctx.only(lambda k: k.startswith("reach/")):
         c08.reachability(ctx)
     # substitutes: operation + parse-before-mutate
-    PARSE = "TypeSubstitutes::parse_path_substitution(P1,P2.0)?"
-    expect_fn(ctx, "C16.2", "substitutes/insert", "TypeSubstitutes::insert", "{HashMap::insert(P0.substitutes,%s.0,%s.1);Ok(())}" % (PARSE, PARSE),
+    # the private parser of one rule is looked through: key = the source path's idents, rule = Substitute{target unchanged, mapping parsed from both}
+    def KEY(src):
+        return "substitutes::path_segments(%s)" % src
+
+    def SUB(src, dst):
+        return "substitutes::Substitute{param_mapping:TypeSubstitutes::parse_path_param_mapping(%s,%s)?,path:%s}" % (src, dst, dst)
+    expect_fn(ctx, "C16.2", "substitutes/insert", "TypeSubstitutes::insert", "{HashMap::insert(P0.substitutes,%s,%s);Ok(())}" % (KEY("P1"), SUB("P1", "P2.0")),
               "insert: parse (may fail, nothing mutated yet), then HashMap::insert - the last rule for a key wins", S)
     expect_fn(ctx, "C16.2", "substitutes/insert_if_not_exists", "TypeSubstitutes::insert_if_not_exists",
-              "{Entry::or_insert(HashMap::entry(P0.substitutes,%s.0),%s.1);Ok(())}" % (PARSE, PARSE), "insert-if-absent: entry(key).or_insert(rule) never replaces", S)
-    PE = "TypeSubstitutes::parse_path_substitution(elem(P1).0,elem(P1).1.0)?"
+              "{Entry::or_insert(HashMap::entry(P0.substitutes,%s),%s);Ok(())}" % (KEY("P1"), SUB("P1", "P2.0")), "insert-if-absent: entry(key).or_insert(rule) never replaces", S)
     DELEGATING = ["Iterator::try_for_each(P1,|1|{TypeSubstitutes::insert(P0,C1_0.0,C1_0.1)})", "{for(P1){TypeSubstitutes::insert(P0,elem(P1).0,elem(P1).1)?};Ok(())}"]
-    expect_fn(ctx, "C16.2", "substitutes/extend", "TypeSubstitutes::extend", ["{for(P1){HashMap::insert(P0.substitutes,%s.0,%s.1)};Ok(())}" % (PE, PE)] + DELEGATING,
+    expect_fn(ctx, "C16.2", "substitutes/extend", "TypeSubstitutes::extend",
+              ["{for(P1){HashMap::insert(P0.substitutes,%s,%s)};Ok(())}" % (KEY("elem(P1).0"), SUB("elem(P1).0", "elem(P1).1.0"))] + DELEGATING,
               "extend: per element in order, parse then insert (a failing element stops before its own insertion) - written out or by calling insert per element", S)
     for suf in ("TypeSubstitutes::insert", "TypeSubstitutes::insert_if_not_exists", "TypeSubstitutes::extend"):
         fn = q.fn1(P, suf, S)
@@ -89,20 +94,20 @@ def check(ctx):
     fs = [b for b in q.fn_by_suffix(P, "std::convert::TryFrom<syn::Path>>::try_from", S)]
     if len(fs) == 1:
         expect_term(ctx, "C16.4", "absolute/checked-conversion", fs[0]["sp"], Norm(fs[0]).term(fs[0]["body"]),
-                    "if(substitutes::is_absolute(P0)){Ok(substitutes::AbsolutePath(P0))}else{Err(substitutes::error(Spanned::span(P0),TypeSubstitutionErrorKind::ExpectedAbsolutePath))}",
+                    "if(substitutes::is_absolute(P0)){Ok(substitutes::AbsolutePath(P0))}else{Err(error::TypeSubstitutionError{kind:TypeSubstitutionErrorKind::ExpectedAbsolutePath,span:Spanned::span(P0)})}",
                     "relative targets are rejected with ExpectedAbsolutePath; the path is wrapped unchanged otherwise")
     else:
         ctx.bad("C16.4", "missing-anchor/TryFrom<syn::Path> for AbsolutePath", "", "checked conversion not found")
     fn = q.fn1(P, "TypeSubstitutes::parse_path_param_mapping", S)
     if fn is not None:
         t = show(Norm(fn).term(fn["body"]), 10 ** 6)
-        for kind, frag in (("EmptySubstitutePath", "else{Err(substitutes::error(Spanned::span(P0),TypeSubstitutionErrorKind::EmptySubstitutePath))}"),
-                           ("ExpectedAngleBracketGenerics", "PathArguments::Parenthesized($)=>return Err(substitutes::error("),
-                           ("InvalidFromType", "ok_or(substitutes::get_valid_from_substitution_type(C1_0),substitutes::error(Spanned::span(C1_0),TypeSubstitutionErrorKind::InvalidFromType))"),
-                           ("InvalidToType", "ok_or(substitutes::get_valid_to_substitution_type(C1_0),substitutes::error(Spanned::span(C1_0),TypeSubstitutionErrorKind::InvalidToType))")):
+        for kind, frag in (("EmptySubstitutePath", "else{Err(error::TypeSubstitutionError{kind:TypeSubstitutionErrorKind::EmptySubstitutePath,span:Spanned::span(P0)})}"),
+                           ("ExpectedAngleBracketGenerics", "PathArguments::Parenthesized($)=>return Err(error::TypeSubstitutionError{kind:TypeSubstitutionErrorKind::ExpectedAngleBracketGenerics,"),
+                           ("InvalidFromType", "ok_or(substitutes::get_valid_from_substitution_type(C1_0),error::TypeSubstitutionError{kind:TypeSubstitutionErrorKind::InvalidFromType,span:Spanned::span(C1_0)})"),
+                           ("InvalidToType", "ok_or(substitutes::get_valid_to_substitution_type(C1_0),error::TypeSubstitutionError{kind:TypeSubstitutionErrorKind::InvalidToType,span:Spanned::span(C1_0)})")):
             ok = frag in t
             if kind == "EmptySubstitutePath":
-                ok = "ok_or(Punctuated::last(P0.segments),substitutes::error(Spanned::span(P0),TypeSubstitutionErrorKind::EmptySubstitutePath))?.arguments" in t
+                ok = "ok_or(Punctuated::last(P0.segments),error::TypeSubstitutionError{kind:TypeSubstitutionErrorKind::EmptySubstitutePath,span:Spanned::span(P0)})?.arguments" in t
             ctx.expect(ok, "C16.4", "error-guard/" + kind, fn["sp"], "%s at its documented guard" % kind, "guard for %s changed" % kind)
     # K15 container facts and K16-lite type-level facts from the ADT table
     with ctx.only(lambda k: k.startswith("container/") and "ModuleIR" not in k):
